@@ -6,7 +6,7 @@ N(labs, ngs, meta, fw)     == [kind |-> "n", labs |-> labs, ngs |-> ngs, ggs |->
 G(labs, ggs, meta)         == [kind |-> "g", labs |-> labs, ngs |-> 0, ggs |-> ggs, nd |-> 0, gd |-> 0, meta |-> meta, fw |-> FALSE]
 P(labs, ngs, ggs, dose, meta) == [kind |-> "p", labs |-> labs, ngs |-> ngs, ggs |-> ggs, nd |-> dose, gd |-> dose, meta |-> meta, fw |-> FALSE]
 
-\* labels: 1 = U235AA, 2 = U235AB, 3 = FE56AA (4 = PU39AB, 5 = NA23AA in the larger instances); fissile: 1, 2, 4
+\* labels: 1 = U235AA, 2 = U235NA, 3 = NA23AA (4 = PU39NA, 5 = FE56AA in the larger instances); fissile: 1, 2, 4
 \* group-structure ids: 1 and 2 have the same number of groups and different energies, 3 has one more group
 ListQuick == <<
     N({1, 3}, 1, 1, FALSE),      \* plain neutron library
@@ -34,8 +34,11 @@ AllDescs == {N(l, s, 1, f) : l \in SubsetsNE, s \in 1..2, f \in BOOLEAN}
        \cup {P(l, s, t, d, 1) : l \in SubsetsNE, s \in 1..2, t \in 1..2, d \in 0..1}
 ListAll == SetToSeq(AllDescs)
 
+\* labels: 1 U235AA  2 U235NA  3 NA23AA  (4 PU39NA  5 FE56AA): the id NA is a substring of the label NA23AA of the id AA
+IdOf3 == <<1, 2, 1>>
+IdOf2 == <<1, 2>>
 Bound == TLCGet("level") <= MaxLevel
 View  == vars
-Emit  == PrintT(ToJson([lvl |-> TLCGet("level"), from |-> Vars, act |-> act', to |-> Vars', err |-> err']))
+Emit  == PrintT(ToJson([lvl |-> TLCGet("level"), from |-> Vars, act |-> act', to |-> Vars', err |-> err', asb |-> AsBuiltOf(act', err')]))
 EmitState == PrintT(ToJson([st |-> Vars, obs |-> Obs]))
 =====================================================================================================
